@@ -20,6 +20,8 @@ use sudachi::prelude::*;
 
 const NUMERIC: u32 = 1 << 4;
 const KANJINUMERIC: u32 = 1 << 8;
+const KATAKANA: u32 = 1 << 7;
+const NOOOVBOW: u32 = 1 << 30;
 const WID_INVALID: u32 = 0xffff_ffff;
 const GROUP: usize = 20;
 const HANG_MS: u64 = 3000;
@@ -27,7 +29,7 @@ const HANG_MS: u64 = 3000;
 #[derive(Clone, Debug, PartialEq)]
 pub struct NodeObs {
     b: usize, e: usize, bb: usize, eb: usize, wid: u32, tc: i32, left: u16, right: u16, cost: i16,
-    pos: u16, hwl: u16, dfw: i32, n_a: usize, n_b: usize, n_w: usize, n_s: usize,
+    pos: u16, hwl: u16, dfw: i32, a_split: Vec<u32>, b_split: Vec<u32>, w_struct: Vec<u32>, syn: Vec<u32>,
     surface: String, norm: String, reading: String, dform: String,
 }
 
@@ -37,8 +39,11 @@ impl NodeObs {
         NodeObs {
             b: n.begin(), e: n.end(), bb: n.begin_bytes(), eb: n.end_bytes(), wid: n.word_id().as_raw(),
             tc: n.total_cost(), left: n.left_id(), right: n.right_id(), cost: n.cost(), pos: d.pos_id,
-            hwl: d.head_word_length, dfw: d.dictionary_form_word_id, n_a: d.a_unit_split.len(),
-            n_b: d.b_unit_split.len(), n_w: d.word_structure.len(), n_s: d.synonym_group_ids.len(),
+            hwl: d.head_word_length, dfw: d.dictionary_form_word_id,
+            a_split: d.a_unit_split.iter().map(|w| w.as_raw()).collect(),
+            b_split: d.b_unit_split.iter().map(|w| w.as_raw()).collect(),
+            w_struct: d.word_structure.iter().map(|w| w.as_raw()).collect(),
+            syn: d.synonym_group_ids.clone(),
             surface: d.surface.clone(), norm: d.normalized_form.clone(), reading: d.reading_form.clone(),
             dform: d.dictionary_form.clone(),
         }
@@ -49,7 +54,8 @@ impl NodeObs {
     fn wire(&self) -> String {
         format!("{}:{}:{}:{}:{}:{}:{}:{}:{}:{}:{}:{}:{}:{}:{}:{}:{}:{}:{}:{}",
             self.b, self.e, self.bb, self.eb, self.wid, self.tc, self.left, self.right, self.cost, self.pos,
-            self.hwl, self.dfw, self.n_a, self.n_b, self.n_w, self.n_s,
+            self.hwl, self.dfw, join(self.a_split.iter(), ","), join(self.b_split.iter(), ","),
+            join(self.w_struct.iter(), ","), join(self.syn.iter(), ","),
             hex(self.surface.as_bytes()), hex(self.norm.as_bytes()), hex(self.reading.as_bytes()), hex(self.dform.as_bytes()))
     }
 }
@@ -63,6 +69,9 @@ pub struct Obs {
     cat: Vec<u32>,
     nodes: Vec<NodeObs>,
     toks: Vec<Tok>,
+    /// what `ResultNode::split` (NodeSplitIterator) yields in modes A and B for every node of the path that declares units
+    /// in that mode, asked directly (not through `split_path`): `b|e|wid|unit;unit;..` entries
+    units: [Vec<String>; 2],
 }
 
 /// outcome classes of one analysis
@@ -74,8 +83,20 @@ pub enum Ana {
     Hang,
 }
 
-fn analyse_here(dic: Arc<JapaneseDictionary>, text: &str, mode: Mode) -> Result<Obs, String> {
+/// One analysis the way a long-lived analyser performs it: ONE `StatefulTokenizer` and ONE `MorphemeList` that
+/// analysed the texts of `warm` before (reset / push_str / do_tokenize / collect_results; failures of the warm-up calls
+/// are part of the history).  `collect_results` swaps the tokenizer's input buffer and path vector with the list's, so
+/// the text meets the buffers of the call before last.  `warm` empty = new objects.  The `ResultNode`s are read by
+/// swapping the result out of the tokenizer and back in before the list collects it.
+fn analyse_here(dic: Arc<JapaneseDictionary>, warm: &[String], text: &str, mode: Mode) -> Result<Obs, String> {
     let mut tok = StatefulTokenizer::new(dic.clone(), mode);
+    let mut ml = MorphemeList::empty(dic.clone());
+    for wt in warm {
+        tok.reset().push_str(wt);
+        if tok.do_tokenize().is_ok() {
+            let _ = ml.collect_results(&mut tok);
+        }
+    }
     tok.reset().push_str(text);
     tok.do_tokenize().map_err(|e| err_class(&e))?;
     let cat = tok.verif_input().verif_tables().mod_cat;
@@ -84,19 +105,36 @@ fn analyse_here(dic: Arc<JapaneseDictionary>, text: &str, mode: Mode) -> Result<
     let mut subset = InfoSubset::all();
     tok.swap_result(&mut input, &mut path, &mut subset);
     let nodes: Vec<NodeObs> = path.iter().map(NodeObs::of).collect();
-    let ml = MorphemeList::from_components(dic, input, path, subset);
+    let mut units: [Vec<String>; 2] = [vec![], vec![]];
+    if mode == Mode::C {
+        for (k, m) in [Mode::A, Mode::B].into_iter().enumerate() {
+            for n in path.iter() {
+                if n.num_splits(m) >= 1 {
+                    let us: Vec<String> = n.split(m, dic.lexicon(), subset, &input).map(|u| NodeObs::of(&u).wire()).collect();
+                    units[k].push(format!("{}|{}|{}|{}", n.begin(), n.end(), n.word_id().as_raw(), us.join(";")));
+                }
+            }
+        }
+    }
+    tok.swap_result(&mut input, &mut path, &mut subset);
+    ml.collect_results(&mut tok).map_err(|e| err_class(&e))?;
     let toks = toks_of(&ml);
-    Ok(Obs { cat, nodes, toks })
+    Ok(Obs { cat, nodes, toks, units })
 }
 
 /// run the analysis on a worker thread so that a non-terminating rewrite loop is an observation
 /// (`Hang`) instead of a stuck check; the stuck thread dies with the process
 pub fn analyse(dic: &Arc<JapaneseDictionary>, text: &str, mode: Mode) -> Ana {
+    analyse_after(dic, &[], text, mode)
+}
+
+pub fn analyse_after(dic: &Arc<JapaneseDictionary>, warm: &[String], text: &str, mode: Mode) -> Ana {
     let (tx, rx) = std::sync::mpsc::channel();
     let d = dic.clone();
     let t = text.to_string();
+    let w = warm.to_vec();
     std::thread::spawn(move || {
-        let r = catch(|| analyse_here(d, &t, mode));
+        let r = catch(|| analyse_here(d, &w, &t, mode));
         let _ = tx.send(r);
     });
     match rx.recv_timeout(std::time::Duration::from_millis(HANG_MS)) {
@@ -128,7 +166,7 @@ fn numeric_variant() -> &'static str {
 const KANJI_NUM: &[char] = &['〇', '一', '二', '三', '五', '十', '百', '千', '万', '億'];
 const KATA: &[char] = &['ア', 'イ', 'ウ', 'ー', 'ァ', 'カ'];
 
-#[derive(Clone, Debug)]
+#[derive(Clone, Debug, PartialEq)]
 pub enum Plug {
     Numeric { normalize: bool },
     Katakana { min_length: usize, pos: usize },
@@ -171,6 +209,10 @@ fn directed_rows(directed: Option<usize>) -> Vec<(&'static str, &'static str, us
         Some(0) => vec![("7", ",", NUMERAL)],
         Some(1) => vec![("7", ".", NUMERAL)],
         Some(2) => vec![("7", "1,,2", NUMERAL)],
+        // a plain world for F3: every digit a numeral whose normalised form is its surface, separators as symbols,
+        // no class oddities
+        Some(4) => vec![("1", "1", NUMERAL), ("2", "2", NUMERAL), ("3", "3", NUMERAL), ("4", "4", NUMERAL), ("5", "5", NUMERAL),
+                        (",", ",", SYMBOL), (".", ".", SYMBOL)],
         _ => vec![],
     }
 }
@@ -253,6 +295,7 @@ impl World {
                     let ids = parts.iter().map(|p| p.unwrap().to_string()).collect::<Vec<_>>().join("/");
                     rows[ci].mode = 'C';
                     rows[ci].split_a = ids.clone();
+                    if rng.chance(1, 2) { rows[ci].wstruct = ids.clone(); }
                     if rng.chance(1, 2) { rows[ci].split_b = ids; }
                     rows[ci].cost = -2000;
                 }
@@ -270,6 +313,13 @@ impl World {
                 rows.push(r);
             }
         }
+        // synonym groups (a merged token is a new word without them; a kept token keeps them)
+        for r in rows.iter_mut() {
+            if rng.chance(1, 3) { r.syn = join((0..rng.range(1, 3)).map(|_| rng.below(500) as u32), "/"); }
+            // numerals with a reading of their own: the joined token's reading form is the concatenation of the RAW fields
+            let numeral = r.surface.chars().all(|c| c.is_ascii_digit() || KANJI_NUM.contains(&c) || c == ',' || c == '.');
+            if numeral && rng.chance(1, 3) { r.reading = rng.pick(&["イチ", "ニ", "サン", "ゼロ", "ジュウ"]).to_string(); }
+        }
         let pos = default_pos();
         let csv = csv_of(&rows, &pos);
         let matrix = Matrix::random(&mut rng, n_ids, n_ids, false);
@@ -285,7 +335,7 @@ impl World {
         // optional oddities: more NOOOVBOW characters, a katakana that is also numeric, a digit that is katakana
         for (p, line) in [(4, "0x30A4 NOOOVBOW\n"), (5, "0x30FC NOOOVBOW\n"), (8, "0x30A6 NUMERIC\n"), (8, "0x0035 KATAKANA\n"),
                           (8, "0x30A2 NOOOVBOW\n"), (10, "0x002E KATAKANA\n")] {
-            if rng.chance(1, p) { extra.push_str(line); }
+            if rng.chance(1, p) && directed.map_or(true, |d| d < 4) { extra.push_str(line); }
         }
         // a separator that is numeric by class: together with a malformed grouping the restart never ends
         if directed == Some(3) { extra.push_str("0x002C NUMERIC\n"); }
@@ -385,6 +435,18 @@ fn gen_filler(rng: &mut Rng) -> String {
 }
 
 pub fn gen_text(rng: &mut Rng, words: &[String]) -> String {
+    gen_text_c(rng, words, &[])
+}
+
+/// `compounds`: numerals of the lexicon that declare A/B units (二十 = 二/十): placed at the head, in the middle and at
+/// the end of a numeral run, so that the joined token is built from a word WITH units
+pub fn gen_text_c(rng: &mut Rng, words: &[String], compounds: &[String]) -> String {
+    if !compounds.is_empty() && rng.chance(1, 5) {
+        let c = rng.pick(compounds).clone();
+        let d = |rng: &mut Rng| rng.pick(&["1", "2", "3", "一", "二", "五", "十", "万", "5", "00"]).to_string();
+        let core = match rng.below(4) { 0 => format!("{}{}", c, d(rng)), 1 => format!("{}{}", d(rng), c), 2 => format!("{}{}{}", d(rng), c, d(rng)), _ => c };
+        return match rng.below(4) { 0 => core, 1 => format!("{}{}", core, gen_filler(rng)), 2 => format!("{}{}", gen_kata(rng, words), core), _ => format!("{}{}{}", gen_filler(rng), core, gen_kata(rng, words)) };
+    }
     if rng.chance(1, 12) {
         let pool: Vec<char> = "0123,.一十万アイウーァカあ東a 5,.".chars().collect();
         return rand_text(rng, &pool, 10);
@@ -409,7 +471,10 @@ pub fn gen_text(rng: &mut Rng, words: &[String]) -> String {
 fn gen_stack(rng: &mut Rng) -> Vec<Plug> {
     let num = |rng: &mut Rng| Plug::Numeric { normalize: rng.chance(1, 2) };
     let kat = |rng: &mut Rng| Plug::Katakana { min_length: rng.below(5), pos: *rng.pick(&[NOUN, NOUN, 5, SYMBOL]) };
-    match rng.below(10) {
+    match rng.below(12) {
+        // the same plugin twice with the same settings: running a plugin on its own output changes nothing
+        10 => { let p = num(rng); vec![p.clone(), p] }
+        11 => { let p = kat(rng); vec![p.clone(), p] }
         0 | 1 => vec![num(rng)],
         2 | 3 => vec![kat(rng)],
         4 | 5 | 6 => vec![num(rng), kat(rng)],
@@ -442,15 +507,39 @@ fn directed(idx: usize) -> Option<(Option<usize>, Vec<Plug>, &'static str)> {
         14 => (None, both(4), ""),
         15 => (None, n1(), "二十三万5千"),
         16 => (None, n1(), "1,000アイ"),
+        // F3: the numeral joiner is not idempotent - the first run gives up on `1,234,` when the `.` is rejected with a
+        // COMMA error and restarts without separators; the second run meets `5.5` as one non-numeric token and joins `1,234`
+        17 => (Some(4), vec![Plug::Numeric { normalize: true }, Plug::Numeric { normalize: true }], "1,234,5.5"),
+        18 => (Some(4), vec![Plug::Numeric { normalize: false }, Plug::Numeric { normalize: false }], "1,234,5.5あ"),
+        19 => (None, vec![Plug::Katakana { min_length: 2, pos: NOUN }, Plug::Katakana { min_length: 2, pos: NOUN }], "ーアイウカ1ァア"),
+        // both orders of the two plugins on the same text
+        20 => (None, vec![Plug::Katakana { min_length: 1, pos: NOUN }, Plug::Numeric { normalize: true }], "1,000,アイウ1.5."),
         _ => return None,
     })
 }
-const N_DIRECTED: usize = 17;
+const N_DIRECTED: usize = 21;
 /// the first directed cases do not terminate on the unchanged tree: they are run last so that the
 /// stuck worker threads do not compete with the rest of the run
 const N_HANG: usize = 4;
 
 // ------------------------------------------------------------------------------------------------
+
+/// earlier texts of a long-lived analyser: other lengths (longer AND shorter), empty ones, rejected ones
+fn gen_warm(rng: &mut Rng, words: &[String]) -> Vec<String> {
+    let n = rng.range(1, 4);
+    (0..n).map(|_| match rng.below(8) {
+        0 => String::new(),
+        1 => "1".repeat(49_200),                      // rejected: InputTooLong
+        2 => { let mut t = String::new(); for _ in 0..rng.range(3, 6) { t.push_str(&gen_text(rng, words)); } t }  // longer
+        3 => "アイ1,000.5カ二十万ウー".to_string(),
+        4 => rng.pick(&["1", "ア", "一", ","]).to_string(),  // shorter
+        _ => gen_text(rng, words),
+    }).collect()
+}
+
+fn warm_desc(warm: &[String]) -> String {
+    format!("[{}]", join(warm.iter().map(|w| if w.len() > 80 { format!("<{} bytes>", w.len()) } else { format!("{:?}", w) }), ","))
+}
 
 fn is_candidate(n: &NodeObs, cat: &[u32]) -> bool {
     let s = n.norm_form();
@@ -535,12 +624,42 @@ fn oracle(base: &Obs, with: &Obs, stack: &[Plug], pos_ids: &[u16], stats: &mut V
             if mode_c && tm.wi_surface != cat {
                 return Some(("c14:merged-surface".into(), format!("merged token {} has dictionary-side surface {:?}, concatenation of its parts is {:?}", k, tm.wi_surface, cat)));
             }
+            // observation (no clause of the property): concat_nodes concatenates the RAW normalised / reading forms, in which
+            // "same as the surface" is the empty string, so a part whose form is its surface is dropped from the joined form
+            if mode_c && m.wid == WID_INVALID && !has_norm {
+                let cn: String = blk.iter().map(|t| t.norm.as_str()).collect();
+                if tm.norm != cn { stats.push("observation:merged-form-drops-part:normalized".into()); }
+                let cr: String = blk.iter().map(|t| t.reading.as_str()).collect();
+                if tm.reading != cr { stats.push("observation:merged-form-drops-part:reading".into()); }
+            }
             // clause 4: prescribed part of speech
             let numeric_ok = has_numeric && tm.pos_id == num_pos && blk[0].pos_id == num_pos;
             let kat_ok = kat_pos.contains(&tm.pos_id);
             let ok = if kat_pos.is_empty() { numeric_ok } else if !has_numeric { kat_ok } else { numeric_ok || kat_ok };
             if mode_c && !ok {
                 return Some(("c14:merged-pos".into(), format!("merged token {} ({:?}) has POS id {}; first part has {}, numeral POS is {}, configured OOV POS {:?}", k, tm.wi_surface, tm.pos_id, blk[0].pos_id, num_pos, kat_pos)));
+            }
+            // the katakana joiner's own rules (Lean: C14.katakana_merged_block_classes, katakana_join_decision), judged on the
+            // class masks of the text: a token it made (it has a word id, the numeral joiner's tokens have none) covers
+            // katakana characters only, does not begin with a NOOOVBOW character, and - when no numeral joiner runs before
+            // it - one of its parts is OOV or shorter than a configured minLength
+            if mode_c && m.wid != WID_INVALID {
+                let cat = &base.cat;
+                let all_kat = (m.b..m.e).all(|i| i < cat.len() && cat[i] & KATAKANA != 0);
+                if !all_kat {
+                    return Some(("c14:katakana-merged-class".into(), format!("token {} ({:?}, chars {}..{}) was joined by the katakana plugin but covers a character that is not KATAKANA", k, tm.wi_surface, m.b, m.e)));
+                }
+                if m.b < cat.len() && cat[m.b] & NOOOVBOW != 0 {
+                    return Some(("c14:katakana-merged-bow".into(), format!("token {} ({:?}) was joined by the katakana plugin and begins with a NOOOVBOW character (char {})", k, tm.wi_surface, m.b)));
+                }
+                let max_min = stack.iter().filter_map(|p| if let Plug::Katakana { min_length, .. } = p { Some(*min_length) } else { None }).max().unwrap_or(0);
+                // the triggering node lies in the maximal katakana run, possibly among the skipped NOOOVBOW-initial nodes
+                // before the joined block
+                let mut lo = j;
+                while lo > 0 && (n0[lo - 1].b..n0[lo - 1].e).all(|i| i < cat.len() && cat[i] & KATAKANA != 0) { lo -= 1; }
+                if !has_numeric && !n0[lo..=l].iter().any(|p| p.wid >> 28 == 15 || p.e - p.b < max_min) {
+                    return Some(("c14:katakana-merged-trigger".into(), format!("token {} ({:?}) was joined by the katakana plugin although no node of its katakana run ({} nodes) is OOV or shorter than minLength {}", k, tm.wi_surface, l - lo + 1, max_min)));
+                }
             }
         } else {
             // clause 5: a token that is not part of a merge is reported unchanged
@@ -552,6 +671,10 @@ fn oracle(base: &Obs, with: &Obs, stack: &[Plug], pos_ids: &[u16], stats: &mut V
                 return Some((key, format!("token {} ({:?}) is not merged with a neighbour but differs in {}: without plugins word_id={:#x} norm={:?} is_oov={}, with plugins word_id={:#x} norm={:?} is_oov={}",
                     k, tm.wi_surface, d.join(","), blk[0].word_id, blk[0].norm, blk[0].is_oov, tm.word_id, tm.norm, tm.is_oov)));
             }
+            // ... in EVERY field of the node and its word info (units, word structure, synonym groups, connection ids, cost)
+            if n0[j] != *m {
+                return Some(("c14:unmerged-changed:node".into(), format!("token {} ({:?}) is not merged with a neighbour but its node differs: without plugins {}, with plugins {}", k, tm.wi_surface, n0[j].wire(), m.wire())));
+            }
         }
         j = l + 1;
     }
@@ -562,11 +685,14 @@ fn oracle(base: &Obs, with: &Obs, stack: &[Plug], pos_ids: &[u16], stats: &mut V
 }
 
 pub fn run(run: &mut Run) {
-    run.rule = "texts of numerals (valid/invalid comma and point groupings, kanji numerals and units), katakana runs (dictionary words of \
-1-4 characters, OOV characters, NOOOVBOW characters) and fillers, numerals/katakana preferably at the text edges and adjacent; random lexicon \
-(digits with numeral or other POS, missing digits, odd normalised forms), random connection matrix, optional MeCab OOV and default input-text \
-plugin; plugin stacks N, K, NK, KN, NK+1 with enableNormalize in {true,false}, minLength 0..4, three OOV POS; non-trivial = the rewritten path \
-differs from the un-rewritten path; distinct by payload".into();
+    run.rule = "texts of numerals (valid/invalid comma and point groupings, kanji numerals and units, compound numerals that declare A/B units at the \
+head/middle/end of a run), katakana runs (dictionary words of 1-4 characters with own headword/reading/normalised form, OOV characters, NOOOVBOW \
+characters) and fillers, numerals/katakana preferably at the text edges and adjacent; random lexicon (digits with numeral or other POS, missing digits, \
+odd normalised forms, readings, synonym groups, word structure), random connection matrix, optional MeCab OOV and default input-text plugin; plugin \
+stacks N, K, NK, KN, NK+1, NN and KK (same settings twice) with enableNormalize in {true,false}, minLength 0..4, three OOV POS; about half of the generated \
+cases analyse WITH the plugins on a recycled tokenizer + result list (1-4 earlier texts: longer, shorter, empty, rejected), the reference without \
+plugins on new objects; half of the cases also in modes A and B (split paths in the answer line); non-trivial = the rewritten path differs from the \
+un-rewritten path; distinct by payload".into();
     let n = run.opts.count;
     run.bump(&format!("numeric-loop-variant:{}", numeric_variant()));
     let mut cached: Option<(usize, Option<usize>, Result<World, String>)> = None;
@@ -599,7 +725,8 @@ differs from the un-rewritten path; distinct by payload".into();
             Some(t) => t,
             None => {
                 let words: Vec<String> = world.rows.iter().filter(|r| r.left >= 0 && r.surface.chars().all(|c| KATA.contains(&c))).map(|r| r.surface.clone()).collect();
-                gen_text(&mut rng, &words)
+                let compounds: Vec<String> = world.rows.iter().filter(|r| r.split_a.contains('/') && r.surface.chars().all(|c| !KATA.contains(&c))).map(|r| r.surface.clone()).collect();
+                gen_text_c(&mut rng, &words, &compounds)
             }
         };
         // stack prefixes 0..=n
@@ -623,11 +750,23 @@ differs from the un-rewritten path; distinct by payload".into();
             Ana::Panic(_) => { run.bump("base-panic"); continue; }
             Ana::Hang => { run.bump("base-hang"); continue; }
         };
+        // about half of the generated cases run the analyses WITH the plugins on recycled objects (one tokenizer + one
+        // result list that analysed 1-4 other texts before); the un-rewritten reference stays on new objects, and the
+        // expected answer is the same: the property does not depend on history
+        let warm: Vec<String> = if idx >= N_DIRECTED && rng.chance(1, 2) {
+            let words: Vec<String> = world.rows.iter().filter(|r| r.left >= 0 && r.surface.chars().all(|c| KATA.contains(&c))).map(|r| r.surface.clone()).collect();
+            gen_warm(&mut rng, &words)
+        } else { vec![] };
+        run.bump(&format!("history:{}-earlier-texts", warm.len()));
+        for w in &warm {
+            run.bump(if w.is_empty() { "history-text:empty" } else if w.len() > 49_149 { "history-text:rejected" }
+                else if w.chars().count() > text.chars().count() { "history-text:longer" } else { "history-text:not-longer" });
+        }
         // intermediate paths (for the parser table) and the final one
         let mut inter: Vec<Obs> = vec![];
         let mut fin: Option<Ana> = None;
         for k in 1..=stack.len() {
-            let a = analyse(&dics[k], &text, Mode::C);
+            let a = analyse_after(&dics[k], &warm, &text, Mode::C);
             match a {
                 Ana::Ok(o) if k < stack.len() => inter.push(o),
                 other => { fin = Some(other); break; }
@@ -644,66 +783,107 @@ differs from the un-rewritten path; distinct by payload".into();
                 run.bump("parser-hook-panic");
             }
         }
-        let payload = format!("nv={} cat={} plugins={} path={} pq={}", numeric_variant(), join(base.cat.iter(), ","),
+        let mut payload = format!("nv={} cat={} plugins={} path={} pq={}", numeric_variant(), join(base.cat.iter(), ","),
             join(stack.iter().map(|p| plug_wire(p, &pos_ids)), ";"), wire_path(&base.nodes), pq.join(";"));
         run.bump(&format!("stack:{}", join(stack.iter().map(|p| match p { Plug::Numeric { normalize } => format!("N{}", *normalize as u8), Plug::Katakana { min_length, .. } => format!("K{}", min_length) }), "")));
         run.bump(&format!("path-len:{}", (base.nodes.len() / 4) * 4));
         run.bump_by("parser-queries", pq.len() as u64);
         let textkey: String = text.chars().map(|c| format!("{:x}", c as u32)).collect::<Vec<_>>().join(".");
+        let hist = if warm.is_empty() { String::new() } else { format!(" after earlier texts {} on the same tokenizer and result list", warm_desc(&warm)) };
         match fin {
             Ana::Ok(with) => {
                 let changed = with.nodes != base.nodes;
                 run.bump(if changed { "outcome:rewritten" } else { "outcome:unchanged" });
-                run.case(idx, "stack", &payload, &format!("ok {}", wire_path(&with.nodes)), changed);
+                // A/B modes: the plugins run before the split; the split stage is part of the model (unit tables of the
+                // un-rewritten words are shipped, the model must reproduce the split path of the full stack)
+                let mut answer = format!("ok {}", wire_path(&with.nodes));
+                let mut ab: Vec<(Mode, Obs, Ana)> = vec![];
+                if run.opts.thorough || idx % 2 == 0 {
+                    for mode in [Mode::A, Mode::B] {
+                        if let Ana::Ok(b2) = analyse(&dics[0], &text, mode) {
+                            let w2 = analyse_after(&dics[stack.len()], &warm, &text, mode);
+                            let tag = if mode == Mode::A { "a" } else { "b" };
+                            payload.push_str(&format!(" u{}={}", tag, base.units[if mode == Mode::A { 0 } else { 1 }].join("/")));
+                            answer.push_str(&format!(" {}={}", tag.to_uppercase(), match &w2 {
+                                Ana::Ok(o) => format!("ok {}", wire_path(&o.nodes)),
+                                Ana::Err(_) => "err".to_string(),
+                                Ana::Panic(_) => "PANIC".to_string(),
+                                Ana::Hang => "HANG".to_string(),
+                            }));
+                            ab.push((mode, b2, w2));
+                        }
+                    }
+                }
+                run.case(idx, "stack", &payload, &answer, changed);
                 let mut stats = vec![];
                 let verdict = oracle(&base, &with, &stack, &pos_ids, &mut stats, true);
                 for s in stats { run.bump(&s); }
                 if with.cat != base.cat {
-                    run.fail(idx, "c14:input-differs", "the class masks of the modified text differ between the two configurations");
+                    run.fail(idx, "c14:input-differs", &format!("text {:?}{}: the class masks of the modified text differ between the two configurations", text, hist));
                 }
                 if let Some((key, what)) = verdict {
                     run.bump(&format!("oracle:{}", key));
-                    run.fail(idx, &key, &format!("text {:?} [{}] stack {:?}: {}", text, textkey, stack, what));
+                    run.fail(idx, &key, &format!("text {:?} [{}] stack {:?}{}: {}", text, textkey, stack, hist, what));
                 }
-                // A/B modes: the same relation must hold after splitting (plugins run before the split)
-                if run.opts.thorough || idx % 2 == 0 {
-                    for mode in [Mode::A, Mode::B] {
-                        if let (Ana::Ok(b2), Ana::Ok(w2)) = (analyse(&dics[0], &text, mode), analyse(&dics[stack.len()], &text, mode)) {
-                            let mut st2 = vec![];
-                            if let Some((key, what)) = oracle(&b2, &w2, &stack, &pos_ids, &mut st2, false) {
-                                let key = format!("{}@{:?}", key, mode);
-                                run.bump(&format!("oracle:{}", key));
-                                run.fail(idx, &key, &format!("mode {:?} text {:?} [{}] stack {:?}: {}", mode, text, textkey, stack, what));
-                            }
-                            // a token of the split result is either a token the plugins made or kept (it is in the mode-C
-                            // result of the same configuration, same range, same dictionary-side surface and part of speech) or
-                            // a unit of an un-merged word (it is in the split result WITHOUT the plugins): a merged token is a
-                            // new word without units, the split never cuts it and never invents tokens
-                            for t in &w2.nodes {
-                                let in_c = with.nodes.iter().any(|c| c.b == t.b && c.e == t.e && c.surface == t.surface && c.pos == t.pos);
-                                let in_plain = b2.nodes.iter().any(|c| c.b == t.b && c.e == t.e && c.surface == t.surface && c.pos == t.pos);
-                                if !in_c && !in_plain {
-                                    let key = format!("c14:split-of-merged@{:?}", mode);
-                                    run.bump(&format!("oracle:{}", key));
-                                    run.fail(idx, &key, &format!("mode {:?} text {:?} [{}] stack {:?}: token {}..{} (dictionary-side surface {:?}, POS {}) is neither a token of the mode-C result with the plugins nor a token of the mode-{:?} result without them: a merged token was split or a token was invented",
-                                        mode, text, textkey, stack, t.b, t.e, t.surface, t.pos, mode));
-                                    break;
-                                }
-                            }
-                            run.bump("ab-mode-checked");
+                // idempotence: a plugin that is configured twice in a row with the same settings changes nothing the second time
+                for k in 1..stack.len() {
+                    if stack[k] == stack[k - 1] {
+                        let first = &inter[k - 1].nodes;
+                        let second = if k + 1 == stack.len() { &with.nodes } else { &inter[k].nodes };
+                        run.bump("idempotence-checked");
+                        if first != second {
+                            let key = format!("c14:not-idempotent:{}", if matches!(stack[k], Plug::Numeric { .. }) { "numeric" } else { "katakana" });
+                            run.bump(&format!("oracle:{}", key));
+                            run.fail(idx, &key, &format!("text {:?} [{}] stack {:?}{}: the second run of {:?} on its own output changes the path: {} tokens -> {} tokens",
+                                text, textkey, stack, hist, stack[k], first.len(), second.len()));
                         }
                     }
+                }
+                for (mode, b2, w2) in &ab {
+                    let mode = *mode;
+                    let w2 = match w2 {
+                        Ana::Ok(o) => o,
+                        _ => {
+                            let key = format!("c14:ab-mode-failed@{:?}", mode);
+                            run.bump(&format!("oracle:{}", key));
+                            run.fail(idx, &key, &format!("mode {:?} text {:?} [{}] stack {:?}{}: the analysis succeeds in mode C and without the plugins, and fails in this mode with them", mode, text, textkey, stack, hist));
+                            continue;
+                        }
+                    };
+                    let mut st2 = vec![];
+                    if let Some((key, what)) = oracle(b2, w2, &stack, &pos_ids, &mut st2, false) {
+                        let key = format!("{}@{:?}", key, mode);
+                        run.bump(&format!("oracle:{}", key));
+                        run.fail(idx, &key, &format!("mode {:?} text {:?} [{}] stack {:?}{}: {}", mode, text, textkey, stack, hist, what));
+                    }
+                    // a token of the split result is either a token the plugins made or kept (it is in the mode-C
+                    // result of the same configuration, same range, same dictionary-side surface and part of speech) or
+                    // a unit of an un-merged word (it is in the split result WITHOUT the plugins): a merged token is a
+                    // new word without units, the split never cuts it and never invents tokens
+                    // (Lean: C14.split_of_merged)
+                    for t in &w2.nodes {
+                        let in_c = with.nodes.iter().any(|c| c.b == t.b && c.e == t.e && c.surface == t.surface && c.pos == t.pos);
+                        let in_plain = b2.nodes.iter().any(|c| c.b == t.b && c.e == t.e && c.surface == t.surface && c.pos == t.pos);
+                        if !in_c && !in_plain {
+                            let key = format!("c14:split-of-merged@{:?}", mode);
+                            run.bump(&format!("oracle:{}", key));
+                            run.fail(idx, &key, &format!("mode {:?} text {:?} [{}] stack {:?}{}: token {}..{} (dictionary-side surface {:?}, POS {}) is neither a token of the mode-C result with the plugins nor a token of the mode-{:?} result without them: a merged token was split or a token was invented",
+                                mode, text, textkey, stack, hist, t.b, t.e, t.surface, t.pos, mode));
+                            break;
+                        }
+                    }
+                    run.bump("ab-mode-checked");
                 }
             }
             Ana::Err(e) => {
                 run.bump("outcome:error");
                 run.case(idx, "stack", &payload, "err", true);
-                run.fail(idx, "c14:error", &format!("text {:?} [{}] stack {:?}: analysis succeeds without the plugins and fails with them: {}", text, textkey, stack, e));
+                run.fail(idx, "c14:error", &format!("text {:?} [{}] stack {:?}{}: analysis succeeds without the plugins and fails with them: {}", text, textkey, stack, hist, e));
             }
             Ana::Panic(p) => {
                 run.bump("outcome:panic");
                 run.case(idx, "stack", &payload, "PANIC", true);
-                run.fail(idx, "c14:panic", &format!("text {:?} [{}] stack {:?}: analysis succeeds without the plugins and panics with them: {}", text, textkey, stack, p));
+                run.fail(idx, "c14:panic", &format!("text {:?} [{}] stack {:?}{}: analysis succeeds without the plugins and panics with them: {}", text, textkey, stack, hist, p));
             }
             Ana::Hang => {
                 hangs += 1;
